@@ -4,7 +4,8 @@ names and the attempt-timeout call.  The loop skeleton (state construction, `for
 the fall-through after the loop) and the small helpers of runner/logic.py and retry_helpers.py whose meaning PyIRL.v fixes
 (determine_action_from_outcome, handle_abort_in_call, emit_success, should_classify_result, raise_scheduled,
 emit_max_attempts_exceeded, raise_exhausted_call, build_exhausted_outcome, _abort_outcome, _build_outcome,
-_handle_abort_attempt_end, _handle_success_attempt_end) must have exactly their present statements.  Statements are compared on the
+_handle_abort_attempt_end, _handle_success_attempt_end, and the state operations of policy/state.py: __init__, check_abort, elapsed,
+emit, record_failure, record_success, handle_exception, handle_result) must have exactly their present statements (pinned by digest).  Statements are compared on the
 unparsed AST, so layout and comments do not matter; anything else raises TranslationError."""
 import ast
 import hashlib
@@ -137,6 +138,15 @@ PINS = {
     "retry_helpers.py:_build_outcome": "3fdcf79bcc2ccd48",
     "retry_helpers.py:_abort_outcome": "bf6206c8be6415ca",
     "retry_helpers.py:_call_attempt_end_from_outcome": "a93b5b714a9f4097",
+    "state.py:_RetryState.__init__": "9f427f4c87d14c29",
+    "state.py:_RetryState.check_abort": "2610334d9bec7285",
+    "state.py:_RetryState.elapsed": "740efcc5cadd83e3",
+    "state.py:_RetryState.emit": "657de99d7f0d6640",
+    "state.py:_RetryState.record_failure": "a77b891670b3b631",
+    "state.py:_RetryState.record_success": "581ce65e4b957860",
+    "state.py:_RetryState.handle_exception": "79f9f0067ffa5bd0",
+    "state.py:_RetryState.handle_result": "1f468eb12a487206",
+    "state.py:_build_backoff_context": "778373a550722f47",
     "runner/sync_core.py:_handle_abort_attempt_end": "8839634ab63a8b78",
     "runner/sync_core.py:_handle_success_attempt_end": "03aa26ef696e443c",
     "runner/async_core.py:_handle_abort_attempt_end": "8839634ab63a8b78",
@@ -151,6 +161,10 @@ def helper_digest(f):
 HELPERS = {"runner/logic.py": ["should_classify_result", "determine_action_from_outcome", "handle_abort_in_call", "emit_success",
                                "emit_max_attempts_exceeded", "raise_exhausted_call", "build_exhausted_outcome", "raise_scheduled"],
            "retry_helpers.py": ["_build_outcome", "_abort_outcome", "_call_attempt_end_from_outcome"],
+           # the state operations every translated fragment (PyIRF, PyIRS, PyIRL) reads as Runner.v's emit / check_abort / ...
+           "state.py": ["_RetryState.__init__", "_RetryState.check_abort", "_RetryState.elapsed", "_RetryState.emit",
+                        "_RetryState.record_failure", "_RetryState.record_success", "_RetryState.handle_exception",
+                        "_RetryState.handle_result", "_build_backoff_context"],
            "runner/sync_core.py": ["_handle_abort_attempt_end", "_handle_success_attempt_end"],
            "runner/async_core.py": ["_handle_abort_attempt_end", "_handle_success_attempt_end"]}
 
@@ -158,11 +172,18 @@ HELPERS = {"runner/logic.py": ["should_classify_result", "determine_action_from_
 def functions(path):
     tree = ast.parse(open(path).read(), filename=path)
     fs = {}
+
+    def add(name, n):
+        if name in fs:
+            raise TranslationError(f"{name} defined twice in {path}")
+        fs[name] = n
     for n in tree.body:
         if isinstance(n, (ast.FunctionDef, ast.AsyncFunctionDef)):
-            if n.name in fs:
-                raise TranslationError(f"{n.name} defined twice in {path}")
-            fs[n.name] = n
+            add(n.name, n)
+        elif isinstance(n, ast.ClassDef):
+            for k in n.body:
+                if isinstance(k, (ast.FunctionDef, ast.AsyncFunctionDef)):
+                    add(f"{n.name}.{k.name}", k)
     return fs
 
 
